@@ -316,7 +316,11 @@ def run(ck):
     if len(reps) == 1:
         wl_ = [w for w in mod.ancestors(reps[0]) if isinstance(w, ast.While)]
         fl_ = [f for f in mod.ancestors(reps[0]) if isinstance(f, ast.For)]
-        ok_rep = len(wl_) == 1 and u(wl_[0].test) in ('pattern in wildcard_sequence',) and len(fl_) == 1 and u(fl_[0].iter) == 'patterns.items()' and \
+        tdef = single_def(conv, 'patterns')
+        # the table is a mapping (walked through .items()) or a sequence of (pattern, replacement) pairs (walked directly): both keep the written order
+        as_pairs = isinstance(tdef, (ast.Tuple, ast.List)) and all(isinstance(e, (ast.Tuple, ast.List)) and len(e.elts) == 2 for e in tdef.elts)
+        walk_ok = len(fl_) == 1 and u(fl_[0].iter) == ('patterns' if as_pairs else 'patterns.items()') and [u(e) for e in getattr(fl_[0].target, 'elts', [])] == ['pattern', 'replacement']
+        ok_rep = len(wl_) == 1 and u(wl_[0].test) in ('pattern in wildcard_sequence',) and walk_ok and \
             [u(a) for a in reps[0].args] == ['pattern', 'replacement'] and not any(isinstance(n, (ast.Break, ast.Continue)) for n in ast.walk(fl_[0]))
     ck.ob('TAB-helix', mod.loc(conv), ok_rep, 'every pattern, in table order, is substituted repeatedly until no occurrence is left (a single str.replace misses occurrences that '
           'overlap in their delimiting dot)', key='TAB-helix|exhaustive-replace')
